@@ -1,11 +1,12 @@
 (* C20 run-side: diffusion_stencil_2d(eps, theta, type) against the Gallina stencils, bit for bit.
-   case = (type (0 FE, 1 FD), (eps, cos theta, sin theta), the 3x3 array returned by the library). *)
+   case = (type (0 FE, 1 FD), (eps, C*S, C**2, S**2) with C = cos theta, S = sin theta as the library computes them
+   (cos, sin and pow are libm's), the 3x3 array returned by the library). *)
 From Coq Require Import ZArith List Bool PrimFloat.
 Import ListNotations.
 Require Import PV.Base.Ops PV.Model.Diffusion.
 
-Definition diff_case := (nat * (float * float * float) * list (list float))%type.
+Definition diff_case := (nat * (float * float * float * float) * list (list float))%type.
 Definition diff_chk (c : diff_case) : bool :=
-  let '(typ, (eps, cs, sn), expected) := c in
-  let st := match typ with O => fe_stencil opsF eps cs sn | _ => fd_stencil opsF eps cs sn end in
+  let '(typ, (eps, cs, cc, ss), expected) := c in
+  let st := match typ with O => fe_stencil_of opsF eps cs cc ss | _ => fd_stencil_of opsF eps cs cc ss end in
   list_eqb (list_eqb PrimFloat.eqb) st expected.
